@@ -381,6 +381,85 @@ theorem encBody_injective {l l' : List Stmt} (hw : ∀ s ∈ l, s.wf) (hw' : ∀
   rw [h, decodeBody_encBody l' hw'] at h1
   exact (Option.some.inj h1).symm
 
+/-! ### the statements of `Chop.invert` -/
+
+def decArms : Nat → List String → Option (List (String × String × String) × List String)
+  | 0, r => some ([], r)
+  | k + 1, c :: g :: n :: r => (match decArms k r with | some (l, r1) => some ((c, g, n) :: l, r1) | none => none)
+  | _ + 1, _ => none
+
+theorem decArms_enc : ∀ (l : List (String × String × String)) (rest : List String),
+    decArms l.length (encArms l ++ rest) = some (l, rest) := by
+  intro l
+  induction l with
+  | nil => intro rest; rfl
+  | cons p l ih => obtain ⟨c, g, n⟩ := p; intro rest; simp [encArms, decArms, ih]
+
+def decI : List String → Option (IStmt × List String)
+  | "assign2" :: t1 :: t2 :: v1 :: v2 :: r => some (.assign2 t1 t2 v1 v2, r)
+  | "ifset" :: x :: "recip" :: y :: z :: r => some (.ifsetRecip x y z, r)
+  | "case" :: f :: d :: r =>
+      (match undigit d with
+       | some k => (match decArms k r with | some (l, r1) => some (.case f l, r1) | none => none)
+       | none => none)
+  | _ => none
+
+def IStmt.wf : IStmt → Prop
+  | .case _ arms => arms.length ≤ 9
+  | _ => True
+
+theorem decI_enc (s : IStmt) (hw : s.wf) (rest : List String) : decI (s.enc ++ rest) = some (s, rest) := by
+  cases s with
+  | assign2 t1 t2 v1 v2 => simp [IStmt.enc, decI]
+  | ifsetRecip x y z => simp [IStmt.enc, decI]
+  | case f arms => simp [IStmt.enc, decI, undigit_digitTok hw, decArms_enc]
+
+def decIBody : Nat → List String → Option (List IStmt)
+  | _, [] => some []
+  | 0, _ :: _ => none
+  | n + 1, t :: r =>
+      (match decI (t :: r) with
+       | none => none
+       | some (s, r1) => (match decIBody n r1 with | some l => some (s :: l) | none => none))
+
+theorem IStmt.enc_ne_nil (s : IStmt) : s.enc ≠ [] := by cases s <;> simp [IStmt.enc]
+
+theorem decIBody_enc : ∀ (l : List IStmt), (∀ s ∈ l, s.wf) → ∀ (n : Nat), l.length ≤ n →
+    decIBody n (encIBody l) = some l := by
+  intro l
+  induction l with
+  | nil => intro _ n _; cases n <;> rfl
+  | cons s l ih =>
+    intro hw n hn
+    cases n with
+    | zero => simp at hn
+    | succ n =>
+      have hdec := decI_enc s (hw s (by simp)) (encIBody l)
+      have ihl := ih (fun x hx => hw x (by simp [hx])) n (by simpa using hn)
+      simp only [encIBody]
+      cases hse : s.enc with
+      | nil => exact absurd hse (IStmt.enc_ne_nil s)
+      | cons t r =>
+        rw [hse] at hdec
+        simp only [List.cons_append] at hdec ⊢
+        simp only [decIBody, hdec, ihl]
+
+def decodeIBody (toks : List String) : Option (List IStmt) := decIBody toks.length toks
+
+theorem encIBody_length : ∀ (l : List IStmt), l.length ≤ (encIBody l).length := by
+  intro l
+  induction l with
+  | nil => simp [encIBody]
+  | cons s l ih =>
+    have h0 : 1 ≤ s.enc.length := by
+      cases hse : s.enc with
+      | nil => exact absurd hse (IStmt.enc_ne_nil s)
+      | cons t r => simp
+    simp [encIBody, List.length_append]; omega
+
+theorem decodeIBody_encIBody (l : List IStmt) (hw : ∀ s ∈ l, s.wf) : decodeIBody (encIBody l) = some l :=
+  decIBody_enc l hw _ (encIBody_length l)
+
 /-! ### the ties read through the decoder: the generated tokens decode to the model's trees -/
 
 theorem body_c2c_count_end_decoded : decodeBody CBV.Gen.c03Body_c2c_expansion__count__end_size = some body_c2c_count_end := by decide +kernel
@@ -395,5 +474,11 @@ theorem body_start_count_c2c_decoded : decodeBody CBV.Gen.c03Body_start_size__co
 theorem body_start_end_total_decoded : decodeBody CBV.Gen.c03Body_start_size__end_size__total_expansion = some body_start_end_total := by decide +kernel
 theorem body_total_count_c2c_decoded : decodeBody CBV.Gen.c03Body_total_expansion__count__c2c_expansion = some body_total_count_c2c := by decide +kernel
 theorem body_total_start_end_decoded : decodeBody CBV.Gen.c03Body_total_expansion__start_size__end_size = some body_total_start_end := by decide +kernel
+
+theorem invertBody_decoded : decodeIBody CBV.Gen.c03InvertBody = some invertBody := by decide +kernel
+
+theorem validatorBodies_decoded :
+    CBV.Gen.c03ValidatorBodies.map (fun p => (p.1, p.2.1, decodeBody p.2.2)) =
+      validatorBodies.map (fun p => (p.1, p.2.1, some p.2.2)) := by decide +kernel
 
 end CBV.C03
